@@ -326,7 +326,7 @@ def run_property(prop, mod_name, tier, seed):
         clauses = [c for c in clauses if c.name in only.split(',')]
     known_open, known_fixed = load_known(prop)
     tier_wall = float(os.environ.get('VERIF_WALL', getattr(mod, 'WALL', {}).get(tier, 75 if tier == 'quick' else 600)))
-    deadline = t0 + tier_wall
+    deadline = time.time() + tier_wall          # the soft budget starts after the extension build
     shrink_cap = 45 if tier == 'quick' else 240
     scale = float(os.environ.get('VERIF_SCALE', '1'))
 
@@ -415,7 +415,9 @@ def run_property(prop, mod_name, tier, seed):
             seen_known[k] = seen_known.get(k, 0) + v
         # non-vacuity
         ev = a['evaluations']
-        if not a['failures'] and not a['errors'] and ev >= 500 and a['skipped_budget'] < ev:
+        ev_all = ev
+        ev = ev - sum(a['known'].values())      # cases excluded by an open known finding carry no labels
+        if not a['failures'] and not a['errors'] and ev >= 500 and a['skipped_budget'] < ev_all:
             for lab, share in c.min_share.items():
                 got = a['labels'].get(lab, 0) / ev
                 if got < share:
@@ -426,7 +428,7 @@ def run_property(prop, mod_name, tier, seed):
                 if got > share:
                     harness.append('clause %s: rate guard: label %r share %.4f > %.4f (n=%d)'
                                    % (c.name, lab, got, share, ev))
-        if ev == 0 and not a['errors']:
+        if ev_all == 0 and not a['errors']:
             harness.append('clause %s: no case was evaluated' % c.name)
 
     seen_crash = set()
@@ -468,6 +470,7 @@ def run_property(prop, mod_name, tier, seed):
                              labels=dict(sorted(a['labels'].items())), desc=a['desc'],
                              exhaustive=a['exhaustive'], skipped_after_wall_budget=a['skipped_budget'],
                              excluded_known={k: v for k, v in a['known'].items()},
+                             excluded_known_examples=a['known_cases'],
                              violations=len(a['failures']))
                  for cname, a in per.items()},
         known_findings_open=sorted(known_open),
